@@ -50,6 +50,11 @@ func init() {
 	execs["c10.bmarshal"] = execC10BMarshal
 	execs["c10.bunmarshal"] = execC10BUnmarshal
 	execs["c10.hand"] = execC10Hand
+	execs["c10.lclen"] = func(in sx.V) sx.V { return sx.Bytes(liteclient.VerifEncodeLength(in.I())) }
+	execs["c10.lcdec"] = execC10LcDec
+	execs["c10.lcalign"] = func(in sx.V) sx.V { return sx.Bytes(liteclient.VerifAlignBytes(append([]byte{}, in.Bytes...))) }
+	execs["c10.adnlreq"] = execC10AdnlReq
+	execs["c10.wait"] = execC10Wait
 	gens["C10"] = genC10
 }
 
@@ -998,6 +1003,8 @@ func genC10(c *Ctx) {
 	}
 	c.c10ByteLengths()
 	c.c10HandCodecs()
+	c.c10Framing()
+	c.c10Words()
 	c.c10Vectors()
 	per := c.Scale(8, 60)
 	for _, n := range c10Names {
@@ -1580,6 +1587,393 @@ func (c *Ctx) c10Vectors() {
 			rq := reflect.New(m.req).Elem()
 			in := sx.L(sx.A(m.name), c10ToSx(rq), sx.Bytes(append(append([]byte{}, c10ResultID(m)...), rb...)))
 			c.c10Emit("c10.request", in, "vector|response|4096")
+		}
+	}
+}
+
+// ---------------------------------------------------------------- liteclient's own framing
+
+func execC10LcDec(in sx.V) sx.V {
+	b := append([]byte{}, in.Bytes...)
+	n, rest, err := liteclient.VerifDecodeLength(b)
+	if err != nil {
+		return sx.A("err")
+	}
+	if !bytes.Equal(b, in.Bytes) {
+		return sx.L(sx.A("harness-error"), sx.A("decodeLength-changed-its-input"))
+	}
+	return sx.L(sx.Nat(n), sx.Nat(len(rest)))
+}
+
+// c10Session runs f on a Client over an in-process pipe; the other end records the
+// ADNL payload of the first packet as it is and answers adnl.message.answer with
+// the TL bytes of resp under the same query id.
+func c10Session(resp []byte, f func(cl *liteclient.Client)) (adnl []byte) {
+	cliEnd, srvEnd := net.Pipe()
+	defer cliEnd.Close()
+	defer srvEnd.Close()
+	conn := liteclient.VerifNewConnection(cliEnd, c10Null{}, c10Null{})
+	cl := liteclient.VerifNewClient([]*liteclient.Connection{conn}, 5*time.Second)
+	got := make(chan []byte, 1)
+	go func() {
+		p, err := liteclient.ParsePacket(bufio.NewReader(srvEnd), c10Null{})
+		if err != nil {
+			got <- nil
+			return
+		}
+		pl := append([]byte{}, p.Payload...)
+		got <- pl
+		if len(pl) < 36 {
+			return
+		}
+		ans := make([]byte, 4)
+		binary.LittleEndian.PutUint32(ans, 0x0fac8416)
+		ans = append(ans, pl[4:36]...)
+		ans = append(ans, c10RefBytes(resp)...)
+		ap, err := liteclient.NewPacket(ans)
+		if err != nil {
+			return
+		}
+		_, _ = srvEnd.Write(liteclient.VerifMarshalPacket(ap))
+	}()
+	f(cl)
+	select {
+	case adnl = <-got:
+	default:
+	}
+	return
+}
+
+// (query answer) -> (ADNL payload without the query id, what Request returns)
+func execC10AdnlReq(in sx.V) sx.V {
+	if in.K != sx.KL || len(in.List) != 2 || in.List[0].K != sx.KBytes || in.List[1].K != sx.KBytes {
+		return sx.L(sx.A("harness-error"), sx.A("shape"))
+	}
+	q := append([]byte{}, in.List[0].Bytes...)
+	var res []byte
+	var rerr error
+	adnl := c10Session(in.List[1].Bytes, func(cl *liteclient.Client) { res, rerr = cl.Request(context.Background(), q) })
+	if len(adnl) < 36 {
+		return sx.L(sx.A("harness-error"), sx.A("no-adnl-payload"))
+	}
+	if !bytes.Equal(q, in.List[0].Bytes) {
+		return sx.L(sx.A("harness-error"), sx.A("Request-changed-the-caller's-query"))
+	}
+	frame := append(append([]byte{}, adnl[:4]...), adnl[36:]...)
+	if rerr != nil {
+		return sx.L(sx.Bytes(frame), sx.A("err"))
+	}
+	return sx.L(sx.Bytes(frame), sx.Bytes(res))
+}
+
+// the query inside liteServer.query of an ADNL payload, read with the reference reader
+func c10Inner(adnl []byte) ([]byte, bool) {
+	if len(adnl) < 37 || binary.LittleEndian.Uint32(adnl[:4]) != 0xb48bf97a {
+		return nil, false
+	}
+	q, _, ok := c10ReadBytes(adnl[36:])
+	if !ok || len(q) < 5 || binary.LittleEndian.Uint32(q[:4]) != 0x798c06df {
+		return nil, false
+	}
+	inner, _, ok := c10ReadBytes(q[4:])
+	return inner, ok
+}
+
+// ('seqno|'block seqno timeout answer) -> (query, outcome)
+func execC10Wait(in sx.V) sx.V {
+	if in.K != sx.KL || len(in.List) != 4 || in.List[0].K != sx.KA || in.List[3].K != sx.KBytes {
+		return sx.L(sx.A("harness-error"), sx.A("shape"))
+	}
+	seqno, tmo := uint32(in.List[1].U64()), uint32(in.List[2].U64())
+	var oc sx.V
+	adnl := c10Session(in.List[3].Bytes, func(cl *liteclient.Client) {
+		var err error
+		if in.List[0].Atom == "seqno" {
+			err = cl.WaitMasterchainSeqno(context.Background(), seqno, tmo)
+			oc = sx.A("ok")
+		} else {
+			var res liteclient.LiteServerBlockHeaderC
+			res, err = cl.WaitMasterchainBlock(context.Background(), seqno, tmo)
+			oc = sx.L(sx.A("result"), c10ToSx(reflect.ValueOf(res)))
+		}
+		switch e := err.(type) {
+		case nil:
+		case liteclient.LiteServerErrorC:
+			oc = sx.L(sx.A("lserror"), c10ToSx(reflect.ValueOf(e)))
+		default:
+			oc = sx.A("err")
+		}
+	})
+	inner, ok := c10Inner(adnl)
+	if !ok {
+		return sx.L(sx.A("harness-error"), sx.A("envelope"))
+	}
+	return sx.L(sx.Bytes(inner), oc)
+}
+
+func (c *Ctx) c10Framing() {
+	// the private length prefix and alignment helpers, every length of the sweep
+	var ns []int
+	for n := 0; n <= c.Scale(600, 1100); n++ {
+		ns = append(ns, n)
+	}
+	ns = append(ns, 4095, 4096, 4097, 65535, 65536, 65537, 1<<24-2, 1<<24-1)
+	for _, n := range ns {
+		bucket := "short"
+		switch {
+		case n >= 1<<16-1:
+			bucket = "large"
+		case n >= 256:
+			bucket = "escape"
+		case n >= 252:
+			bucket = "around-254"
+		}
+		out := c.c10Emit("c10.lclen", sx.Nat(n), "framing|encodeLength|"+bucket)
+		if want := tl.EncodeLength(n); out.K != sx.KBytes || !bytes.Equal(out.Bytes, want) {
+			c.Fail("c10.lclen", sx.Nat(n), "c10-length-copies", fmt.Sprintf("liteclient.encodeLength(%d) differs from tl.EncodeLength(%d)", n, n))
+		}
+		var hdr []byte
+		if n < 254 {
+			hdr = []byte{byte(n)}
+		} else {
+			hdr = []byte{254, byte(n), byte(n >> 8), byte(n >> 16)}
+		}
+		tail := c.R.Bytes(c.R.Intn(4))
+		din := sx.Bytes(append(append([]byte{}, hdr...), tail...))
+		dout := c.c10Emit("c10.lcdec", din, "framing|decodeLength|"+bucket)
+		if dout.K != sx.KL || len(dout.List) != 2 || dout.List[0].I() != n || dout.List[1].I() != len(tail) {
+			c.Fail("c10.lcdec", din, "c10-length-copies", fmt.Sprintf("liteclient.decodeLength does not read the TL length prefix of %d back", n))
+		}
+	}
+	for _, b := range [][]byte{{}, {255}, {255, 1, 2, 3}, {254}, {254, 1}, {254, 1, 2}, {254, 5, 0, 0}, {254, 253, 0, 0, 9}, {254, 255, 255, 255}, {253}, {0}} {
+		c.c10Emit("c10.lcdec", sx.Bytes(b), "framing|decodeLength|odd")
+	}
+	for n := 0; n <= 9; n++ {
+		c.c10Emit("c10.lcalign", sx.Bytes(c.R.Bytes(n)), "framing|alignBytes")
+	}
+	// (*Client).Request with raw queries of every length (the generated bindings only ever
+	// hand it multiples of 4), answers of every length
+	top := c.Scale(300, 1100)
+	var lens []int
+	for n := 0; n <= top; n++ {
+		lens = append(lens, n)
+	}
+	lens = append(lens, 508, 509, 510, 511, 512, 1021, 1022, 1023, 1024, 4095, 4096, 4097, 65535, 65536, 65537)
+	for i, n := range lens {
+		q := c.R.Bytes(n)
+		rn := lens[(i*7+3)%len(lens)]
+		if i%3 == 0 {
+			rn = n
+		}
+		resp := c.R.Bytes(rn)
+		bucket := func(n int) string {
+			switch {
+			case n >= 4095:
+				return "large"
+			case n >= 256:
+				return "escape"
+			case n >= 252:
+				return "around-254"
+			}
+			return fmt.Sprintf("short-mod4=%d", n%4)
+		}
+		in := sx.L(sx.Bytes(q), sx.Bytes(resp))
+		out := c.c10Emit("c10.adnlreq", in, "framing|Request|q="+bucket(n))
+		mark := sx.L(sx.A("Request"), sx.Nat(n), sx.Nat(rn))
+		if out.K != sx.KL || len(out.List) != 2 || out.List[0].K != sx.KBytes {
+			continue
+		}
+		frame := out.List[0].Bytes
+		// two exported ways of writing adnl.message.query agree, and the TL reader reads it back
+		var id tl.Int256
+		msg := liteclient.AdnlMessage{SumType: "AdnlMessageQuery"}
+		msg.AdnlMessageQuery.QueryId = id
+		msg.AdnlMessageQuery.Query = q
+		gen, err := tl.Marshal(msg)
+		full := append(append(append([]byte{}, frame[:4]...), id[:]...), frame[4:]...)
+		if err != nil || !bytes.Equal(gen, full) {
+			c.Fail("c10.adnlreq", mark, "c10-adnl-query", fmt.Sprintf("Request writes a %d-byte query differently from AdnlMessage.MarshalTL", n))
+		}
+		var back liteclient.AdnlMessage
+		rd := bytes.NewReader(full)
+		if err := tl.Unmarshal(rd, &back); err != nil || rd.Len() != 0 || back.SumType != "AdnlMessageQuery" || !bytes.Equal(back.AdnlMessageQuery.Query, q) {
+			c.Fail("c10.adnlreq", mark, "c10-adnl-query", fmt.Sprintf("the ADNL payload Request writes for a %d-byte query does not parse back as adnl.message.query", n))
+		}
+		if out.List[1].K != sx.KBytes || !bytes.Equal(out.List[1].Bytes, resp) {
+			c.Fail("c10.adnlreq", mark, "c10-adnl-answer", fmt.Sprintf("Request does not return the %d-byte answer the server sent", rn))
+		}
+	}
+	// the hand-assembled wait queries
+	errBody := func(code uint32, msg string) []byte {
+		b, _ := tl.Marshal(liteclient.LiteServerErrorC{Code: code, Message: msg})
+		return append([]byte{0x48, 0xe1, 0xa9, 0xbb}, b...)
+	}
+	for i := 0; i < c.Scale(24, 120); i++ {
+		seqno := c10Seqno[c.R.Intn(len(c10Seqno))]
+		tmo := c10U32[c.R.Intn(len(c10U32))]
+		var resp []byte
+		kind := "ok"
+		switch i % 6 {
+		case 0:
+			resp = errBody(0, "")
+		case 1:
+			kind = "error"
+			resp = errBody(uint32(1+c.R.Intn(700)), string(c.R.Bytes(c.R.Intn(20))))
+		case 2:
+			kind = "foreign"
+			resp = c.R.Bytes(c.R.Intn(12))
+		case 3:
+			kind = "short-error"
+			resp = errBody(0, "abc")[:4+c.R.Intn(5)]
+		default:
+			kind = "header"
+			hv := reflect.New(reflect.TypeOf(liteclient.LiteServerBlockHeaderC{})).Elem()
+			(&c10Gen{r: c.R, big: 10, maxV: 2}).fill(hv, 0)
+			b, _ := tl.Marshal(hv.Interface())
+			resp = append([]byte{0x19, 0x82, 0x2d, 0x75}, b...)
+		}
+		which := "seqno"
+		if i%2 == 1 {
+			which = "block"
+		}
+		c.c10Emit("c10.wait", sx.L(sx.A(which), sx.N(seqno), sx.N(tmo), sx.Bytes(resp)), "framing|wait|"+which+"|"+kind)
+	}
+}
+
+// ---------------------------------------------------------------- foreign words at every word position
+
+// words a peer could plausibly put where a constructor id, a count, a mode or a length belongs
+func c10Foreign(orig uint32, r *prng.R) []uint32 {
+	sw := func(x uint32) uint32 { return x<<24 | (x&0xff00)<<8 | (x>>8)&0xff00 | x>>24 }
+	return []uint32{sw(0x997275b5), sw(0xbc799737), 0x3fedd339, 0, 1, orig ^ 1, sw(orig), 0xffffffff, orig + 1, uint32(r.U64())}
+}
+
+func c10PutWord(b []byte, off int, w uint32) []byte {
+	m := append([]byte{}, b...)
+	binary.LittleEndian.PutUint32(m[off:], w)
+	return m
+}
+
+// bool fields of a struct value (of the selected constructor for a sum)
+func c10BoolFields(v reflect.Value) []reflect.Value {
+	if c10IsSum(v.Type()) {
+		f := v.FieldByName(v.FieldByName("SumType").String())
+		if !f.IsValid() || f.Kind() != reflect.Struct {
+			return nil
+		}
+		v = f
+	}
+	var out []reflect.Value
+	for i := 0; i < v.NumField(); i++ {
+		if v.Field(i).Kind() == reflect.Bool {
+			out = append(out, v.Field(i))
+		}
+	}
+	return out
+}
+
+func (c *Ctx) c10Words() {
+	// Bool on its own: the two constructor ids and nothing else
+	for _, w := range append([]uint32{0x997275b5, 0xbc799737}, c10Foreign(0x997275b5, c.R)...) {
+		b := make([]byte, 4, 6)
+		binary.LittleEndian.PutUint32(b, w)
+		b = append(b, c.R.Bytes(c.R.Intn(3))...)
+		in := sx.L(sx.A("bool"), sx.Bytes(b))
+		out := c.c10Emit("c10.bunmarshal", in, "words|bool-alone")
+		valid := w == 0x997275b5 || w == 0xbc799737
+		if valid == out.IsA("err") {
+			c.Fail("c10.bunmarshal", in, "c10-bool-id", fmt.Sprintf("tl.Unmarshal into a bool: word %08x accepted=%v", w, !out.IsA("err")))
+		}
+	}
+	for _, n := range c10Names {
+		t := c10Types[n]
+		v := reflect.New(t).Elem()
+		(&c10Gen{r: c.R, big: 0, maxV: 2}).fill(v, 0)
+		cv, b, ok := c10Canon(v)
+		if !ok || len(b) < 4 {
+			continue
+		}
+		// every aligned word of a valid encoding replaced by foreign words: the model decides
+		words := len(b) / 4
+		if words > 64 {
+			words = 64
+		}
+		for w := 0; w < words; w++ {
+			orig := binary.LittleEndian.Uint32(b[4*w:])
+			fw := c10Foreign(orig, c.R)
+			k := c.Scale(2, len(fw))
+			for j := 0; j < k; j++ {
+				x := fw[(w+j*3)%len(fw)]
+				if x == orig {
+					continue
+				}
+				c.c10Emit("c10.unmarshal", c10Case(n, sx.Bytes(c10PutWord(b, 4*w, x))), "words|"+c10Category(t))
+			}
+		}
+		// the word of every Bool field, located by flipping the field: only the two ids parse
+		for _, bf := range c10BoolFields(cv) {
+			bf.SetBool(!bf.Bool())
+			b2, err := tl.Marshal(cv.Interface())
+			bf.SetBool(!bf.Bool())
+			if err != nil || len(b2) != len(b) {
+				continue
+			}
+			off := -1
+			for i := range b {
+				if b[i] != b2[i] {
+					off = i &^ 3
+					break
+				}
+			}
+			if off < 0 {
+				continue
+			}
+			for _, x := range c10Foreign(binary.LittleEndian.Uint32(b[off:]), c.R)[:8] {
+				if x == 0x997275b5 || x == 0xbc799737 {
+					continue
+				}
+				m := c10PutWord(b, off, x)
+				in := c10Case(n, sx.Bytes(m))
+				c.c10Emit("c10.unmarshal", in, "words|bool-field|"+c10Category(t))
+				if err := tl.Unmarshal(bytes.NewReader(m), reflect.New(t).Interface()); err == nil {
+					c.Fail("c10.unmarshal", in, "c10-bool-id", fmt.Sprintf("%s parses with the word %08x where a Bool constructor id belongs (offset %d)", n, x, off))
+				}
+			}
+		}
+	}
+	// the same through the request decoder and through a request method's answer
+	if m, ok := c10FindMethod("LiteServerGetShardInfo"); ok {
+		rq := reflect.New(m.req).Elem()
+		(&c10Gen{r: c.R, big: 0, maxV: 2}).fill(rq, 0)
+		body, _ := tl.Marshal(rq.Interface())
+		msg := append(append([]byte{}, c10RequestID(m)...), body...)
+		for w := 1; w < len(msg)/4; w++ {
+			for _, x := range c10Foreign(binary.LittleEndian.Uint32(msg[4*w:]), c.R)[:c.Scale(3, 8)] {
+				c.c10Emit("c10.reqdecode", sx.Bytes(c10PutWord(msg, 4*w, x)), "words|reqdecode")
+			}
+		}
+	}
+	for _, name := range []string{"LiteServerListBlockTransactions", "LiteServerGetValidatorStats", "LiteServerGetBlockProof"} {
+		m, ok := c10FindMethod(name)
+		if !ok {
+			continue
+		}
+		rv := reflect.New(m.res).Elem()
+		(&c10Gen{r: c.R, big: 0, maxV: 2}).fill(rv, 0)
+		if cv, _, ok := c10Canon(rv); ok {
+			rv = cv
+		}
+		body, _ := tl.Marshal(rv.Interface())
+		resp := append(append([]byte{}, c10ResultID(m)...), body...)
+		rq := reflect.New(m.req).Elem()
+		words := len(resp) / 4
+		if words > 48 {
+			words = 48
+		}
+		for w := 0; w < words; w++ {
+			for _, x := range c10Foreign(binary.LittleEndian.Uint32(resp[4*w:]), c.R)[:c.Scale(1, 6)] {
+				c.c10Emit("c10.request", sx.L(sx.A(m.name), c10ToSx(rq), sx.Bytes(c10PutWord(resp, 4*w, x))), "words|response")
+			}
 		}
 	}
 }
